@@ -10,23 +10,23 @@ CLAIMED = {
    note='Trusted: go/types + go/ssa; math/big semantics; A-deps; A-protomsg. One known finding listed in known_findings.json.'),
  'C02': dict(
    level='other', design='DESIGN.md §5 C02',
-   technique='static analysis: exact-guard dominance for big.Int Sub/Add on balances with versioned operand terms, direction/amount classification of Value mutations per entry point against T-REG, cut of the wipe delete by the Frozen test; counter/role hand-over identities and success cuts (fresh-nonce clause)',
-   text='Every subtraction from a balance is dominated by exactly Cmp(minuend, subtrahend) >= 0 on the same versions of both operands (strict guards that reject the exact balance are reported too); the signed Add of the shared helper is followed by exactly Cmp(Value,0) >= 0; per registered name the Value mutations have the table\'s direction with amounts decoded from the arguments; supply-neutral functions never mutate a Value; wipe deletes only under Frozen of the entry read from the same account and key. That the stored number equals old +/- amount is math/big arithmetic and is not decided.',
+   technique='static analysis: exact-guard dominance for big.Int Sub/Add on balances with versioned operand terms, direction/amount classification of Value mutations per entry point against T-REG, cut of the wipe delete by the Frozen test; counter/role hand-over identities and success cuts (fresh-nonce clause); shared obligations: credit-adds-holding (C01-R1) and key provenance (C05-R3) as clauses of "changes only by the stated amount, on the entry named"',
+   text='Every subtraction from a balance is dominated by exactly Cmp(minuend, subtrahend) >= 0 on the same versions of both operands (strict guards that reject the exact balance are reported too); the signed Add of the shared helper is followed by exactly Cmp(Value,0) >= 0; per registered name the Value mutations have the table\'s direction with amounts decoded from the arguments; supply-neutral functions never mutate a Value; wipe deletes only under Frozen of the entry read from the same account and key. That the stored number equals old +/- amount is math/big arithmetic and is not decided. Also claimed as necessary conditions: a credit adds to what the account holds (a save that overwrites is a supply change) and every balance write uses prefix||token||canonical nonce bytes with the token named in the input (a supply change cannot land on another entry).',
    note='Trusted: go/types + go/ssa; math/big; T-REG supply column.'),
  'C07': dict(
    level='other', design='DESIGN.md §5 C07',
-   technique='static analysis: value identity (SSA/term) of counter read, +1, persisted counter, metadata nonce, return datum and log topic; key/account provenance of counter reads and writes; success-return cuts by the counter write, the zeroing and the role removal; message content extraction',
-   text='Create uses read+1 everywhere (one value), persists it under the key it read, on every successful path, and treats a failed read as an error; the hand-over zeroes the old counter and strips the role on every successful path, ships / writes the value it read, and the next owner installs the shipped number and the role. Uniqueness over histories with late or duplicated delivery is not decided.',
+   technique='static analysis: value identity (SSA/term) of counter read, +1, persisted counter, metadata nonce, return datum and log topic; key/account provenance of counter reads and writes; success-return cuts by the counter write, the zeroing and the role removal; message content extraction; the role handler decides on the sender\'s own list (shared with C03)',
+   text='Create uses read+1 everywhere (one value), persists it under the key it read, on every successful path, and treats a failed read as an error; the hand-over zeroes the old counter and strips the role on every successful path, ships / writes the value it read, and the next owner installs the shipped number and the role. Uniqueness over histories with late or duplicated delivery is not decided. Only a holder of the create role advances the counter: the role handler consults the list of the account it was handed and the gate is bound to the sender.',
    note='Trusted: go/types + go/ssa; A-deps; single-creator discipline.'),
  'C08': dict(
    level='other', design='DESIGN.md §5 C08',
-   technique='static analysis: field-write ownership per entry point (who may write which metadata field, and with what value shape), provenance of the marshalled entry at credits and shipments, two-edge cut for the hash check, binding table of the created literal',
-   text='Only create, add-URI (append of the given URIs to the same list), update-attributes (replace by the given argument) and the freeze toggles write entry/metadata fields; the entry marshalled for a credit or shipment is the sender\'s / decoded one, never the destination\'s current entry; every NFT credit is cut by {no metadata at destination, equal hashes}; the created literal binds the documented arguments and the royalty bound cuts its save. Byte equality across a protobuf hop is C14\'s tables; chains as executions are not decided.',
+   technique='static analysis: field-write ownership per entry point (who may write which metadata field, and with what value shape), provenance of the marshalled entry at credits and shipments, two-edge cut for the hash check, binding table of the created literal; key-layout provenance on the NFT functions (one entry per (token, nonce), shared with C05-R3)',
+   text='Only create, add-URI (append of the given URIs to the same list), update-attributes (replace by the given argument) and the freeze toggles write entry/metadata fields; the entry marshalled for a credit or shipment is the sender\'s / decoded one, never the destination\'s current entry; every NFT credit is cut by {no metadata at destination, equal hashes}; the created literal binds the documented arguments and the royalty bound cuts its save. Byte equality across a protobuf hop is C14\'s tables; chains as executions are not decided. Every NFT entry is stored under prefix||token||math/big\'s bytes of the nonce, so two nonces never share an entry.',
    note='Trusted: go/types + go/ssa; A-deps.'),
  'C15': dict(
    level='other', design='DESIGN.md §5 C15',
-   technique='static analysis: key-layout provenance, writer/reader value-type agreement per key class, positive-value cut before marshalled writes, reader post-condition (known finding), search-before-append structure',
-   text='Writer-side conditions of the representation invariant: key layout, value type per key class on both the writing and the reading side, zero balances deleted rather than stored (with C02 the stored value is positive), create role appended only after a failed search of the same list. The key/metadata-nonce agreement (R4) is a KNOWN FINDING on this tree. The invariant over reachable states as such is not decided.',
+   technique='static analysis: key-layout provenance, writer/reader value-type agreement per key class, positive-value cut before marshalled writes, reader post-condition (known finding), search-before-append structure; shared obligations: the counter travels with the create role (C07-R2/R3) and SaveKeyValue cannot write protocol keys (C03-R6)',
+   text='Writer-side conditions of the representation invariant: key layout, value type per key class on both the writing and the reading side, zero balances deleted rather than stored (with C02 the stored value is positive), create role appended only after a failed search of the same list. The key/metadata-nonce agreement (R4) is a KNOWN FINDING on this tree. The invariant over reachable states as such is not decided. Two history clauses are claimed through their writer-side conditions: the nonce counter is shipped and installed with the create role, and the user-key writer is cut off the protocol key space.',
    note='Trusted: go/types + go/ssa; C02-R1, C08-R1; A-deps. One known finding listed in known_findings.json.'),
  'C03': dict(
    level='other', design='DESIGN.md §5 C03',
@@ -40,8 +40,8 @@ CLAIMED = {
    note='Trusted: go/types + go/ssa; T-EXEMPT (the five exempt protocol names of the statement); A-presence; flag byte tables are C20.'),
  'C05': dict(
    level='other', design='DESIGN.md §5 C05',
-   technique='static analysis: CFG cut of the user-key write by the namespace/self-call/non-contract guards, storage-key provenance (append chains on constant prefixes), account provenance, who-may-call table over dependency mutators',
-   text='Decides the guards of the SaveKeyValue write (same key tested and written, Arguments[i]/Arguments[i+1] pairs), the exact acceptance condition of IsAllowedToSaveUnderKey (operator and constant), that every other storage write below the 23 entry points uses a key with one of the three constant protocol prefixes and a token taken from the call\'s own arguments, in an account that is sender/destination/destination-argument/system account, and that account-level mutators are called only by their owning function. The frame condition as an observed diff is not decided.',
+   technique='static analysis: CFG cut of the user-key write by the namespace/self-call/non-contract guards, storage-key provenance (append chains on constant prefixes), account provenance, who-may-call table over dependency mutators; byte-range table of the non-contract guard\'s address classifier (shared with C20-R5)',
+   text='Decides the guards of the SaveKeyValue write (same key tested and written, Arguments[i]/Arguments[i+1] pairs), the exact acceptance condition of IsAllowedToSaveUnderKey (operator and constant), that every other storage write below the 23 entry points uses a key with one of the three constant protocol prefixes and a token taken from the call\'s own arguments, in an account that is sender/destination/destination-argument/system account, and that account-level mutators are called only by their owning function. The frame condition as an observed diff is not decided. The classifier behind the non-contract guard reads exactly bytes [0,8) of the address, never the VM-type bytes.',
    note='Trusted: go/types + go/ssa; world state is reachable only through the interfaces of interface.go (no reflection/unsafe).'),
  'C09': dict(
    level='other', design='DESIGN.md §5 C09',
@@ -50,8 +50,8 @@ CLAIMED = {
    note='Trusted: go/types + go/ssa; the protocol argument layout of the three transfer functions; A-presence.'),
  'C10': dict(
    level='other', design='DESIGN.md §5 C10',
-   technique='static analysis: string-shape flattening of emitted data (through loops and helper parameters) against the grammar Head(\"@\" hex)*; constant/guard agreement; classification of destination-side error exits (none decided by argument content); extraction and comparison of argument-position tables (linear forms a*i+b*n+c) of ledger and parser per role and execution side',
-   text='Every emitted data string has the shape the call-arguments parser inverts, with the parsers\' separator constant; constant heads are the emitter\'s own protocol name; minimum-count constants, stride and the ledger\'s effective guards agree; and for each of the three transfer functions and both sides the positions the ledger uses for token, nonce/count, value/payload, destination, attached function and arguments equal the positions the parser binds to its exported fields. Numeric equality of parsed values and ledger diffs is not decided.',
+   technique='static analysis: string-shape flattening of emitted data (through loops and helper parameters) against the grammar Head(\"@\" hex)*; constant/guard agreement; classification of destination-side error exits (none decided by argument content); extraction and comparison of argument-position tables (linear forms a*i+b*n+c) of ledger and parser per role and execution side; error-propagation below the three transfer functions (shared with C17-R1)',
+   text='Every emitted data string has the shape the call-arguments parser inverts, with the parsers\' separator constant; constant heads are the emitter\'s own protocol name; minimum-count constants, stride and the ledger\'s effective guards agree; and for each of the three transfer functions and both sides the positions the ledger uses for token, nonce/count, value/payload, destination, attached function and arguments equal the positions the parser binds to its exported fields. Numeric equality of parsed values and ledger diffs is not decided. The continuing side of the two single transfers and of SetUserName has no error exit decided by the bytes or the length of a forwarded argument; below the three transfer functions no error of a debit, credit or decode step is dropped, so an accepted call has moved all the parser reports.',
    note='Trusted: go/types + go/ssa; hex encode/decode are inverse; A-protomsg.'),
  'C14': dict(
    level='other', design='DESIGN.md §5 C14',
@@ -60,28 +60,28 @@ CLAIMED = {
    note='Trusted: go/types, go/ast of the generated file, go/ssa; the .proto file as the documented format; one listed exception (MarshalTo nil case: buffer sized by Size).'),
  'C11': dict(
    level='other', design='DESIGN.md §5 C11',
-   technique='static analysis: linear entailment of index/slice bounds from CFG edge facts, validator summaries under caller assumptions and call-site preconditions; taint of decoded counts; nil-ness cuts for optional fields and absent accounts; return-shape classification',
+   technique='static analysis: linear entailment of index/slice bounds from CFG edge facts, validator summaries under caller assumptions and call-site preconditions; taint of decoded counts; nil-ness cuts for optional fields and absent accounts; return-shape classification; staleness of length facts across stores to the measured field',
    text='All index/slice expressions of builtInFunctions are entailed in range; argument-decoded 64-bit counts are bounded before arithmetic, signed conversion, indexing or allocation (arithmetic-derived facts are not trusted: no circular wrap reasoning); every TokenMetaData dereference is cut by its presence test (or rests on A-protomsg, whose emitter-side obligation is checked); every account method call is cut by the presence test or A-presence; entry points return (out,nil)/(nil,err) and store only ReturnCode Ok. These are the panic sources the property names; panics inside dependencies or math/big and memory other than make sizes are not decided.',
-   note='Trusted: go/types + go/ssa; A-len, A-argbytes, A-presence, A-protomsg, A-input; one listed exception (deleteRoles: index returned by a linear search).'),
+   note='Trusted: go/types + go/ssa; A-len, A-argbytes, A-presence, A-protomsg, A-input.'),
  'C12': dict(
    level='other', design='DESIGN.md §5 C12',
-   technique='static analysis: index-bound entailment and count taint over package parsers (exported methods as entry points), nil-ness cut for decoded numeric fields, constant/codec agreement between builder and parsers incl. the numeric encoders (big.Int.Bytes of the parameter)',
+   technique='static analysis: index-bound entailment and count taint over package parsers (exported methods as entry points), nil-ness cut for decoded numeric fields, constant/codec agreement between builder and parsers incl. the numeric encoders (big.Int.Bytes of the parameter); joiner identification in ToString over + chains, strings.Join and builder loops, whole-object assignments included',
    text='Decides totality clauses of the four parsers (all index/slice sites entailed in range incl. the parity lemma for the stride-2 loop and strings.Split length facts; the transfer count bounded before it is multiplied; decoded *big.Int fields nil-checked) and the grammar agreement builder <-> parsers (same separator constant, hex codec on every appended element). The round trip as an equation over all strings is not decided.',
    note='Trusted: go/types + go/ssa; A-len; strings.Split returns >= 1 element for a non-empty separator.'),
  'C13': dict(
    level='other', design='DESIGN.md §5 C13',
-   technique='static analysis: interprocedural derivation set of the input structure with write/append/copy/mutator sinks; initialiser provenance of shared append bases; reachability-scoped scan for hidden state and nondeterminism sources with a positive control',
+   technique='static analysis: interprocedural derivation set of the input structure with write/append/copy/mutator sinks; initialiser provenance of shared append bases; reachability-scoped scan for hidden state and nondeterminism sources with a positive control; allocation-site-sensitive flow of input memory through fields of locally built objects',
    text='Decides that nothing reachable from the entry points writes into memory derived from the input (stores, map updates, append/copy destinations, big.Int mutators), that every shared append base is initialised only from []byte(constant) so append always copies, that the shared big.Int zero never escapes or mutates, and that the execution region (entry points and parsers) contains no store to receiver/global state, map range, goroutine, channel, clock, randomness, reflection or %p. Determinism of the injected dependencies is assumed (A-deps).',
    note='Trusted: go/types + go/ssa; A-constcap (gc: []byte(const) has cap == len); A-deps.'),
  'C19': dict(
    level='other', design='DESIGN.md §5 C19',
-   technique='static analysis: lockset dataflow ({unlocked, read, write} per mutex, defer-aware) with inferred guarded-field sets and call-site inheritance for helpers; critical-section counting; atomic-discipline and field-write-ownership checks',
-   text='The sound static counterpart of the race/linearizability statement: balanced locking on every path; all guarded fields (map values; cost and per-byte prices of the 15 priced objects) accessed under the right lock mode; each execution is one read-locked region released only by defer and each repricing rewrites all guarded fields in one write-locked region (hence one schedule per execution); every map operation is a single critical section and every container method a single map operation; atomic wrappers use only sync/atomic without load-then-store; all other object fields are immutable after construction. Histories are not enumerated.',
+   technique='static analysis: lockset dataflow ({unlocked, read, write} per mutex, defer-aware) with inferred guarded-field sets and call-site inheritance for helpers; critical-section counting; atomic-discipline and field-write-ownership checks; spare-capacity rule for shared append bases (shared with C13-R2)',
+   text='The sound static counterpart of the race/linearizability statement: balanced locking on every path; all guarded fields (map values; cost and per-byte prices of the 15 priced objects) accessed under the right lock mode; each execution is one read-locked region released only by defer and each repricing rewrites all guarded fields in one write-locked region (hence one schedule per execution); every map operation is a single critical section and every container method a single map operation; atomic wrappers use only sync/atomic without load-then-store; all other object fields are immutable after construction. Histories are not enumerated. Executions hold only the read lock, so an append onto a shared base must allocate: every shared base is initialised from []byte(constant) only.',
    note='Trusted: go/types + go/ssa; sync.RWMutex / sync/atomic semantics; objects are published after construction.'),
  'C16': dict(
    level='other', design='DESIGN.md §5 C16',
-   technique='static analysis: three-way table agreement (factory argument / constructor field / SetNewGasConfig copy) against T-REG, field-read ownership, CFG cuts for all-or-nothing schedule changes, must-pass-through of SetNewGasConfig in the broadcast loop and of every cost copy inside SetNewGasConfig, must-pass-through charge points',
-   text='For each priced protocol name the cost field is the table\'s field at all three places; only the documented per-byte prices are read (and each is); a schedule is stored and broadcast only after both tables decoded and passed the zero check, and every table field is of a kind that check inspects; every sender-side success path passes a charge that includes the own cost (structurally: cost, cost+…, cost*n, loop accumulator seeded with cost). The consumed amount as a number is not decided.',
+   technique='static analysis: three-way table agreement (factory argument / constructor field / SetNewGasConfig copy) against T-REG, field-read ownership, CFG cuts for all-or-nothing schedule changes, must-pass-through of SetNewGasConfig in the broadcast loop and of every cost copy inside SetNewGasConfig, must-pass-through charge points; no return of GasScheduleChange without the decoder call; range cover of the lengths multiplied by StorePerByte over the arguments stored into the entry',
+   text='For each priced protocol name the cost field is the table\'s field at all three places; only the documented per-byte prices are read (and each is); a schedule is stored and broadcast only after both tables decoded and passed the zero check, and every table field is of a kind that check inspects; every sender-side success path passes a charge that includes the own cost (structurally: cost, cost+…, cost*n, loop accumulator seeded with cost). The consumed amount as a number is not decided. Every schedule handed in is decoded (no short-cut return before validation), and for create / add-URI / update-attributes the argument positions whose lengths are multiplied by the store price cover every argument stored into the entry.',
    note='Trusted: go/types + go/ssa; T-REG; mapstructure.Decode and reflect-based zero check behave as documented.'),
  'C18': dict(
    level='proof', design='DESIGN.md §5 C18',
